@@ -671,7 +671,7 @@ fn main() {
     );
     run.check_fn = "dcheck_case".into();
     run.case_ty = "(dcase * dobs)".into();
-    run.shard_size(100);
+    run.shard_size(if run.args.thorough { 200 } else { 100 });
     run.preamble = "From HW Require Import model.CanonJson.".into();
     let seed = run.args.seed;
     let tmp = tempfile::tempdir().unwrap();
@@ -685,7 +685,7 @@ fn main() {
             entries.join(";\n  "));
     }
 
-    for (stream, quick, thorough, bias) in [(0u64, 500u64, 6000u64, true), (1, 300, 4000, false)] {
+    for (stream, quick, thorough, bias) in [(0u64, 500u64, 4000u64, true), (1, 300, 2500, false)] {
         let n = run.args.count(quick, thorough);
         for i in 0..n {
             let id = format!("{}:{}", stream, i);
